@@ -70,10 +70,17 @@ func slice(slice []interface{}, parts []sliceParam) ([]interface{}, error) {
 	if step > 0 {
 		for i := start; i < stop; i += step {
 			result = append(result, slice[i])
+			if step >= stop-i {
+				// The next index is at or past stop; adding step could overflow.
+				break
+			}
 		}
 	} else {
 		for i := start; i > stop; i += step {
 			result = append(result, slice[i])
+			if step <= stop-i {
+				break
+			}
 		}
 	}
 	return result, nil
